@@ -49,6 +49,7 @@ boundary, or has parameter > 10 or value >= 2^32, or is followed by another item
     ],
     run,
     replay,
+    from_bytes: Some(from_bytes),
 };
 
 pub fn writer_ops(c: &Case) -> Vec<WOp> {
@@ -288,7 +289,7 @@ fn run(ctx: &Ctx, env: &Env) -> Stats {
         }
     }
     // (c) random streams with shrinking
-    let n_rand = ctx.t(12_000u64, 400_000);
+    let n_rand = ctx.t(30_000u64, 1_000_000);
     for j in 0..16 {
         jobs.push(Box::new(move |ctx: &Ctx| {
             let mut part = Part::new(ctx, format!("random/streams/{}", j), "proptest byte strings decoded into (writer cfg, reader cfg, offset, items, tail)", false);
@@ -349,7 +350,7 @@ writes the preceding bits, the batch and a sentinel, and every return value and 
 written from the published definitions documented by the library (gamma = unary(floor(log2(n+1))) + n+1 without its top bit, delta via gamma, \
 omega recursive blocks ending in 0, zeta_k and Golomb via unary + minimal binary, pi_k via Rice_k, exp-Golomb_k = gamma(n>>k) + k low bits, VByte \
 complete 7-bit groups; little-endian: fields least-significant-bit first, omega blocks rotated by one, minimal binary's extra bit last). Parts: \
-every value below 2^10 (quick) / 2^16 (thorough) for every code with parameters <= 10 (<= 16 thorough), all invocation variants, both \
+every value below 2^12 (quick) / 2^16 (thorough) for every code with parameters <= 10 (<= 16 thorough), all invocation variants, both \
 endiannesses, all five writer words, preceding offset rotating over 0..=W+1 (enumerated completely); the boundary grid of every code/parameter; \
 every offset 0..=W+1 for a code menu. zeta_k values are restricted to (h+1)k <= 63 as the property states. Non-trivial: codeword longer than 8 \
 bits, or little-endian with a multi-bit field, or not starting on a byte boundary; distinct = distinct (configuration, offset, invocation, \
@@ -360,6 +361,7 @@ batch) hashes.",
     ],
     run: run04,
     replay: replay04,
+    from_bytes: None,
 };
 
 impl Case04 {
@@ -420,7 +422,7 @@ fn small_param_codes(maxk: u32) -> Vec<Code> {
 
 fn run04(ctx: &Ctx, env: &Env) -> Stats {
     let mut jobs: Vec<Job> = vec![];
-    let top: u64 = ctx.t(1 << 10, 1 << 16);
+    let top: u64 = ctx.t(1 << 12, 1 << 16);
     let maxk = ctx.t(10u32, 16);
     for e in En::ALL {
         for w in Wd::WRITER {
@@ -502,4 +504,10 @@ fn run04(ctx: &Ctx, env: &Env) -> Stats {
 fn replay04(v: &serde_json::Value, env: &Env) -> CheckResult {
     let c: Case04 = serde_json::from_value(v.clone()).map_err(|e| Failure::new("replay/parse", e.to_string()))?;
     run_guarded(&c, &|c: &Case04| check_case04(c, env))
+}
+
+fn from_bytes(data: &[u8], env: &Env) -> (serde_json::Value, CheckResult) {
+    let c = gen_case(&mut Src::new(data), 24);
+    let r = run_guarded(&c, &|c| check_case(c, env));
+    (serde_json::to_value(&c).unwrap_or(serde_json::Value::Null), r)
 }
